@@ -102,8 +102,12 @@ def global_state():
             for k, v in sorted(vars(cls).items()):
                 if k.startswith("__") or callable(v) or isinstance(v, (classmethod, staticmethod, property)):
                     continue
-                if k == "context":
-                    v = "set"
+                # Rule.__new__ writes cls.context and cls.name = cls.__name__ on *every* instantiation, and a rule is only
+                # ever used through an instance made for the current file (Registry.run_rules): both are written before
+                # they can be read, so "has this rule run before" is not observable state.  A name that is not the class
+                # name would be, and is kept.
+                if k == "context" or (k == "name" and v == cls.__name__):
+                    continue
                 out.append((cls.__name__ + "." + k, repr(_plain(v))[:500]))
     # mutable default arguments of functions and methods (a shared `macros=[]` survives a file just like a global)
     import inspect
@@ -161,8 +165,15 @@ def in_pristine_child(fn, *args):
     return pickle.loads(data)
 
 
+def pool_ext():
+    """The pool followed by the sample inputs of norminette's own tests (indices >= len(pool()) are samples): the
+    samples serve as additional *polluters* -- one-file histories whose global state is compared with the known ones."""
+    from .. import corpus
+    return pool() + list(corpus.samples())
+
+
 def _run_history(hist, fresh_registry_between, probe=False):
-    files = pool()
+    files = pool_ext() if any(i >= len(pool()) for i in hist) else pool()
     import hashlib
     obs = []
     states = []
@@ -373,6 +384,24 @@ def run(tier, seed):
         st.caps.append(f"global-state BFS stopped at depth {maxdepth} with {len(frontier)} open states")
     st.states = len(seen)
     st.bump("distinct_global_states", len(seen))
+    # ---- the sample inputs as polluters: each alone as a one-file history; a global state not seen so far joins the
+    # set of states the victim corpus is run from
+    ext = pool_ext()
+    shist = [(i,) for i in range(nf, len(ext))]
+    sres = explore.pmap(history_task, [(h, False) for h in shist], chunksize=2)
+    new_states = 0
+    for h, r in zip(shist, sres):
+        st.runs += 1
+        st.transitions += 1
+        if r[0] != "ok":
+            raise HarnessError(f"sample history {ext[h[0]][0]}: {r}")
+        g = r[1][1][-1]
+        if g not in seen:
+            seen[g] = h
+            new_states += 1
+    st.bump("sample_polluters", len(shist))
+    st.bump("global_states_first_reached_by_a_sample", new_states)
+    files = ext
     # ---- a sensitive victim corpus from every distinct global state (DESIGN §4.6 'start from non-initial states')
     reps = list(seen.values())
     pres = explore.pmap(probe_task, reps, chunksize=1)
